@@ -249,3 +249,35 @@ Example C12_spec_quirks :   (* "5!" and "<5!" truncate only; "*<5!" truncates an
   parse_spec [53] = None /\ parse_spec [60] = None /\ parse_spec [60;48] = None /\ parse_spec [33] = None /\
   parse_spec [60;60;53] = Some (mk_spec 60 (Some ALeft) MNone 5).
 Proof. vm_compute. repeat split. Qed.
+(* the documented placeholder names, the conditionals and the four attribute forms, as the tokeniser classifies them *)
+Example C12_placeholder_classification :
+  classify [116;121;112;101] = PTok KType /\
+  classify [108;105;110;101] = PTok KLine /\
+  classify [102;105;108;101] = PTok KFile /\
+  classify [115;104;111;114;116;102;105;108;101] = PTok (KShortFile []) /\
+  classify [115;104;111;114;116;102;105;108;101;32;47;98;97;115;101;47;112;97;116;104] = PTok (KShortFile [47;98;97;115;101;47;112;97;116;104]) /\
+  classify [102;117;110;99;116;105;111;110] = PTok KFunction /\
+  classify [102;117;110;99] = PTok KFunc /\
+  classify [99;97;116;101;103;111;114;121] = PTok KCategory /\
+  classify [116;105;109;101] = PTok (KTime []) /\
+  classify [116;105;109;101;32;104;104;58;109;109;58;115;115] = PTok (KTime [104;104;58;109;109;58;115;115]) /\
+  classify [116;105;109;101;32;112;114;111;99;101;115;115] = PTok (KTime [112;114;111;99;101;115;115]) /\
+  classify [116;104;114;101;97;100;105;100] = PTok KThreadId /\
+  classify [113;116;104;114;101;97;100;112;116;114] = PTok KQThreadPtr /\
+  classify [109;101;115;115;97;103;101] = PTok KMessage /\
+  classify [105;102;45;100;101;98;117;103] = PCond (Some Debug) /\
+  classify [105;102;45;105;110;102;111] = PCond (Some Info) /\
+  classify [105;102;45;119;97;114;110;105;110;103] = PCond (Some Warning) /\
+  classify [105;102;45;99;114;105;116;105;99;97;108] = PCond (Some Critical) /\
+  classify [105;102;45;102;97;116;97;108] = PCond (Some Fatal) /\
+  classify [105;102;45;98;111;103;117;115] = PCond (Some Debug) /\
+  classify [101;110;100;105;102] = PCond None /\
+  classify [117;115;101;114] = PTok (KAttr [117;115;101;114] false 0 0) /\
+  classify [117;115;101;114;63] = PTok (KAttr [117;115;101;114] true 0 0) /\
+  classify [117;115;101;114;63;50] = PTok (KAttr [117;115;101;114] true 2 0) /\
+  classify [117;115;101;114;63;50;44;51] = PTok (KAttr [117;115;101;114] true 2 3) /\
+  classify [117;115;101;114;63;44;51] = PTok (KAttr [117;115;101;114] true 0 3) /\
+  classify [117;115;101;114;63;45;49;44;120] = PTok (KAttr [117;115;101;114] true 0 0) /\
+  classify [77;101;115;115;97;103;101] = PTok (KAttr [77;101;115;115;97;103;101] false 0 0) /\
+  classify [32;109;101;115;115;97;103;101] = PTok (KAttr [32;109;101;115;115;97;103;101] false 0 0).
+Proof. vm_compute. repeat split. Qed.
